@@ -214,7 +214,28 @@ func (c *txCase) genWrite(tgt txTarget, label string, view *vsql.Table) *txWrite
 // ---------------------------------------------------------------------------------------
 // table references
 
-func (c *txCase) qualified(b, table string) string { return "`" + c.m.dbn + "/" + b + "`." + table }
+// spellDB returns the database name in one of the spellings a client may use: database names are
+// case-insensitive, so `Inv7`, `inv7` and `INV7` are one database.
+func (c *txCase) spellDB() string {
+	n := c.m.dbn
+	alts := []string{n, n, strings.ToLower(n), strings.ToUpper(n), swapCase(n)}
+	return rapid.SampledFrom(alts).Draw(c.rt, "db.spelling")
+}
+
+func swapCase(s string) string {
+	b := []byte(s)
+	for i, ch := range b {
+		switch {
+		case ch >= 'a' && ch <= 'z' && i%2 == 0:
+			b[i] = ch - 32
+		case ch >= 'A' && ch <= 'Z' && i%2 == 1:
+			b[i] = ch + 32
+		}
+	}
+	return string(b)
+}
+
+func (c *txCase) qualified(b, table string) string { return "`" + c.spellDB() + "/" + b + "`." + table }
 
 // workingRef is how session s names the working table of tgt.
 func (c *txCase) workingRef(s *txSess, tgt txTarget, forceQualified bool) string {
@@ -268,14 +289,14 @@ func (c *txCase) checkCommitted(q *vsql.Session, b, why string, heads bool) {
 			}
 		}
 	}
-	st, err := q.Query("SELECT table_name, staged, status FROM `" + c.m.dbn + "/" + b + "`.dolt_status")
+	st, err := q.Query("SELECT table_name, staged, status FROM `" + c.spellDB() + "/" + b + "`.dolt_status")
 	if err != nil {
 		c.fail("observer: dolt_status: %v", err)
 	}
 	if want := c.m.db.expectedStatus(b); !vsql.EqualStrings(st.Sorted(), want) {
 		c.fail("%s: dolt_status of %s: want %s got %s", why, b, vsql.Show(want), vsql.Show(st.Sorted()))
 	}
-	cf, err := q.Query("SELECT `table`, num_conflicts FROM `" + c.m.dbn + "/" + b + "`.dolt_conflicts")
+	cf, err := q.Query("SELECT `table`, num_conflicts FROM `" + c.spellDB() + "/" + b + "`.dolt_conflicts")
 	if err != nil {
 		c.fail("observer: dolt_conflicts: %v", err)
 	}
@@ -346,7 +367,7 @@ func (c *txCase) readOutsideSnapshot(s *txSess, sc *txSchema, b string) {
 	case 0:
 		q = "SELECT " + sc.colList() + " FROM " + sc.name + " AS OF '" + b + "'"
 	case 1:
-		q = "USE `" + c.m.dbn + "/" + b + "`"
+		q = "USE `" + c.spellDB() + "/" + b + "`"
 	default:
 		q = "SELECT " + sc.colList() + " FROM " + c.qualified(b, sc.name)
 	}
@@ -363,9 +384,9 @@ func (c *txCase) readOutsideSnapshot(s *txSess, sc *txSchema, b string) {
 	// USE / dolt_checkout went through: go back to where the model thinks the session is, with the
 	// same kind of statement (also not asserted)
 	if strings.HasPrefix(q, "USE") || strings.HasPrefix(q, "CALL") {
-		back := "USE `" + c.m.dbn + "`"
+		back := "USE `" + c.spellDB() + "`"
 		if s.revdb != "" {
-			back = "USE `" + c.m.dbn + "/" + s.revdb + "`"
+			back = "USE `" + c.spellDB() + "/" + s.revdb + "`"
 		}
 		if err := s.conn.Exec(back); err != nil {
 			c.fail("[%s] %s: %v", s.name, back, err)
@@ -433,6 +454,83 @@ func (c *txCase) readAndCompare(s *txSess, sc *txSchema, tgt txTarget, head bool
 	}
 }
 
+// readParent reads a table AS OF the first parent of a branch head ('HEAD~1', '<branch>~1').
+func (c *txCase) readParent(s *txSess, sc *txSchema) bool {
+	b := s.cur()
+	ref := "HEAD~1"
+	if rapid.Bool().Draw(c.rt, "parent.named") {
+		b = rapid.SampledFrom(s.snap.branches).Draw(c.rt, "parent.branch")
+		ref = b + "~1"
+	}
+	want, ok := s.snap.HP[txTarget{b, sc.name}]
+	if !ok {
+		return false // the parent commit has no tables: nothing to read
+	}
+	q := "SELECT " + sc.colList() + " FROM " + sc.name + " AS OF '" + ref + "'"
+	got, err := s.conn.Query(q)
+	if err != nil {
+		c.logf("%s: %s -> %s", s.name, q, errStr(err))
+		c.fail("read failed: [%s] %s: %v", s.name, q, err)
+	}
+	c.logf("%s: %s -> %s", s.name, q, vsql.Show(got.Sorted()))
+	if !vsql.EqualStrings(got.Sorted(), want.Sorted()) {
+		c.fail("[%s] %s\n read returned %s\n the parent of the head of %s in the transaction's snapshot has %s", s.name, q, vsql.Show(got.Sorted()), b, vsql.Show(want.Sorted()))
+	}
+	c.class("read_head_parent")
+	c.afterStmt(s, false)
+	return true
+}
+
+// readRefs reads the branch heads themselves: dolt_branches (name, hash) and the first row of
+// dolt_log. Refs are part of the snapshot: inside a transaction they are the heads (and the set of
+// branches) at the transaction's first statement.
+func (c *txCase) readRefs(s *txSess) {
+	if rapid.Bool().Draw(c.rt, "refs.log") {
+		q := "SELECT commit_hash FROM dolt_log LIMIT 1"
+		got, err := s.conn.Query(q)
+		if err != nil || len(got.Data) != 1 {
+			c.logf("%s: %s -> %v", s.name, q, err)
+			c.fail("read failed: [%s] %s: %v %v", s.name, q, got, err)
+		}
+		c.logf("%s: %s -> %s", s.name, q, got.Data[0][0])
+		if want := s.snap.headHash[s.cur()]; got.Data[0][0] != want {
+			c.fail("[%s] %s on branch %s returned %s, the head of %s in the transaction's snapshot is %s (head now: %s)",
+				s.name, q, s.cur(), got.Data[0][0], s.cur(), want, c.m.db.headHash[s.cur()])
+		}
+		c.class("read_log_head")
+		c.afterStmt(s, false)
+		return
+	}
+	from := "dolt_branches"
+	if rapid.Bool().Draw(c.rt, "refs.qualified") {
+		from = "`" + c.spellDB() + "`.dolt_branches"
+	}
+	q := "SELECT name, hash FROM " + from
+	got, err := s.conn.Query(q)
+	if err != nil {
+		c.logf("%s: %s -> %s", s.name, q, errStr(err))
+		c.fail("read failed: [%s] %s: %v", s.name, q, err)
+	}
+	c.logf("%s: %s -> %s", s.name, q, vsql.Show(got.Sorted()))
+	var want []string
+	for _, b := range s.snap.branches {
+		want = append(want, b+"\x1f"+s.snap.headHash[b])
+	}
+	sort.Strings(want)
+	if !vsql.EqualStrings(got.Sorted(), want) {
+		c.fail("[%s] %s\n returned %s\n the branches and heads of the transaction's snapshot are %s", s.name, q, vsql.Show(got.Sorted()), vsql.Show(want))
+	}
+	c.class("read_dolt_branches")
+	if s.inTx && (!s.ac || s.explicit) {
+		for _, b := range s.snap.branches {
+			if s.snap.headHash[b] != c.m.db.headHash[b] {
+				c.class("read_dolt_branches_after_head_moved")
+			}
+		}
+	}
+	c.afterStmt(s, false)
+}
+
 // sweepSnapshot reads every table of every branch of s's snapshot, working set and head, and
 // compares each with the model.
 func (c *txCase) sweepSnapshot(s *txSess) {
@@ -450,11 +548,11 @@ func (c *txCase) doRead(s *txSess) {
 	c.m.begin(s)
 	sc := c.m.db.schemas[rapid.IntRange(0, len(c.m.db.schemas)-1).Draw(rt, "read.table")]
 	nb := len(c.m.db.branches)
-	variants := []string{"cur", "cur", "cur", "curq"}
+	variants := []string{"cur", "cur", "cur", "curq", "dbq", "dbqasof", "parent", "refs"}
 	if nb > 1 {
 		variants = append(variants, "other", "other", "asof", "asof", "asofhead")
 	} else {
-		variants = append(variants, "asofhead")
+		variants = append(variants, "asofhead", "asof")
 	}
 	v := rapid.SampledFrom(variants).Draw(rt, "read.variant")
 	tgt := txTarget{s.cur(), sc.name}
@@ -494,6 +592,22 @@ func (c *txCase) doRead(s *txSess) {
 	case "asofhead":
 		head = true
 		ref = tgt.table + " AS OF 'HEAD'"
+	case "dbq":
+		// the base database (however spelled) is on the branch this session checked out
+		tgt.branch = s.checkout
+		ref = "`" + c.spellDB() + "`." + tgt.table
+	case "dbqasof":
+		tgt.branch = rapid.SampledFrom(s.snap.branches).Draw(rt, "read.branch")
+		head = true
+		ref = "`" + c.spellDB() + "`." + tgt.table + " AS OF '" + tgt.branch + "'"
+	case "parent":
+		if c.readParent(s, sc) {
+			return
+		}
+		ref = tgt.table // the parent commit has no tables: an ordinary read instead
+	case "refs":
+		c.readRefs(s)
+		return
 	}
 	q := "SELECT " + sc.colList() + " FROM " + ref
 	pk := 0
@@ -721,7 +835,7 @@ func (c *txCase) doSwitch(s *txSess) {
 	var q string
 	switch {
 	case s.revdb != "" && rapid.IntRange(0, 2).Draw(rt, "switch.base") == 0:
-		q = "USE `" + c.m.dbn + "`"
+		q = "USE `" + c.spellDB() + "`"
 		c.m.begin(s)
 		s.revdb = ""
 	case s.revdb == "" && rapid.IntRange(0, 1).Draw(rt, "switch.checkout") == 0:
@@ -729,7 +843,7 @@ func (c *txCase) doSwitch(s *txSess) {
 		c.m.begin(s)
 		s.checkout = b
 	default:
-		q = "USE `" + c.m.dbn + "/" + b + "`"
+		q = "USE `" + c.spellDB() + "/" + b + "`"
 		c.m.begin(s)
 		s.revdb = b
 	}
@@ -864,7 +978,7 @@ func (c *txCase) doDoltCommit(s *txSess) {
 					vsql.Show(c.m.db.H[tgt].Sorted()), vsql.Show(got.Sorted()))
 			}
 		}
-		c.m.db.setH(tgt, got)
+		c.m.db.newHead(tgt, got)
 	}
 	movedByHash := s.snap.headHash[b] != prevHash
 	if nLoose > 0 {
@@ -907,7 +1021,7 @@ func (c *txCase) doDoltCommit(s *txSess) {
 			cols = append(cols, "from_"+col)
 		}
 		dq := "SELECT diff_type," + strings.Join(cols, ",") + " FROM dolt_diff('HEAD','WORKING','" + sc.name + "')"
-		ds := txOpen(c.rt, c.srv, "diff", c.m.dbn+"/"+b)
+		ds := txOpen(c.rt, c.srv, "diff", c.spellDB()+"/"+b)
 		d, derr := ds.Query(dq)
 		ds.Close()
 		if derr != nil {
@@ -963,6 +1077,9 @@ func (c *txCase) doNewBranch() {
 		from, to := txTarget{src, sc.name}, txTarget{nb, sc.name}
 		c.m.db.W[to] = c.m.db.H[from].Clone()
 		c.m.db.H[to] = c.m.db.H[from].Clone()
+		if hp, ok := c.m.db.HP[from]; ok {
+			c.m.db.HP[to] = hp.Clone()
+		}
 	}
 	c.m.db.headHash[nb] = c.m.db.headHash[src]
 	c.class("branch_created_mid_schedule")
@@ -979,9 +1096,16 @@ func (c *txCase) doNewBranch() {
 
 func txRunCase(rt *rapid.T, srv *vsql.Server, admin *vsql.Session, cfg *txCfg, rec *vh.Recorder) {
 	c := &txCase{rt: rt, cfg: cfg, srv: srv, cls: map[string]bool{}, headUnsure: map[string]bool{}}
+	// database names come in lower, mixed and upper case (they are case-insensitive for clients)
 	dbn := srv.NewDBName()
-	admin.MustExec(rt, "CREATE DATABASE "+dbn)
-	defer admin.Exec("DROP DATABASE " + dbn)
+	switch rapid.IntRange(0, 2).Draw(rt, "db.namestyle") {
+	case 1:
+		dbn = "Inv" + dbn[1:] + "Db"
+	case 2:
+		dbn = "INV" + dbn[1:]
+	}
+	admin.MustExec(rt, "CREATE DATABASE `"+dbn+"`")
+	defer admin.Exec("DROP DATABASE `" + dbn + "`")
 
 	// schema and branches
 	nb := rapid.IntRange(cfg.branchMin, cfg.branchMax).Draw(rt, "branches")
@@ -1006,7 +1130,8 @@ func txRunCase(rt *rapid.T, srv *vsql.Server, admin *vsql.Session, cfg *txCfg, r
 	}
 	c.m = &txModel{db: newTxDB(branches, schemas), dbn: dbn}
 
-	setup := txOpen(rt, srv, "setup", dbn)
+	c.logf("admin: CREATE DATABASE `%s`", dbn)
+	setup := txOpen(rt, srv, "setup", c.spellDB())
 	defer setup.Close()
 	run := func(q string) {
 		if err := setup.Exec(q); err != nil {
@@ -1057,18 +1182,18 @@ func txRunCase(rt *rapid.T, srv *vsql.Server, admin *vsql.Session, cfg *txCfg, r
 				}
 			}
 			if dirty {
-				run("USE `" + dbn + "/" + b + "`")
+				run("USE `" + c.spellDB() + "/" + b + "`")
 				run("CALL dolt_commit('-Am','diverge')")
-				run("USE `" + dbn + "`")
+				run("USE `" + c.spellDB() + "`")
 				for _, s2 := range schemas {
 					t2 := txTarget{b, s2.name}
-					c.m.db.setH(t2, c.m.db.W[t2].Clone())
+					c.m.db.newHead(t2, c.m.db.W[t2].Clone())
 				}
 			}
 		}
 	}
 
-	c.obs = txOpen(rt, srv, "obs", dbn)
+	c.obs = txOpen(rt, srv, "obs", c.spellDB())
 	defer c.obs.Close()
 	for _, b := range branches {
 		c.m.db.headHash[b] = c.obsHash(c.obs, b)
@@ -1079,7 +1204,9 @@ func txRunCase(rt *rapid.T, srv *vsql.Server, admin *vsql.Session, cfg *txCfg, r
 	ns := rapid.IntRange(cfg.sessMin, cfg.sessMax).Draw(rt, "sessions")
 	for i := 0; i < ns; i++ {
 		s := &txSess{name: string(rune('A' + i)), ac: true, checkout: "main"}
-		s.conn = txOpen(rt, srv, s.name, dbn)
+		s.spelledDB = c.spellDB()
+		s.conn = txOpen(rt, srv, s.name, s.spelledDB)
+		c.logf("%s: USE `%s`", s.name, s.spelledDB)
 		defer s.conn.Close()
 		c.sess = append(c.sess, s)
 		if rapid.IntRange(0, 99).Draw(rt, s.name+".ac") >= cfg.acOnPercent {
@@ -1147,7 +1274,7 @@ func txRunCase(rt *rapid.T, srv *vsql.Server, admin *vsql.Session, cfg *txCfg, r
 		}
 	}
 	// a fresh session must see exactly the merge of the acknowledged transactions
-	fresh := txOpen(rt, srv, "fresh", dbn)
+	fresh := txOpen(rt, srv, "fresh", c.spellDB())
 	defer fresh.Close()
 	for _, b := range c.m.db.branches {
 		c.checkCommitted(fresh, b, "final state seen by a fresh session", true)
